@@ -36,6 +36,8 @@ impl Scenario for AggSc {
         p.set("scheme", if multi { *x.pick(&[0i64, 2]) } else { ((index / 2) % 3) as i64 });
         let n = match class {
             "agg-every-n" | "multi-every-n" => 2 + (index / 6 % 63) as i64,
+            // the largest list sizes the property names (65 and 64 pairing terms incl. the closing one)
+            "agg-max-n" | "multi-max-n" => [64i64, 63, 64, 62][(index / 6 % 4) as usize],
             _ => {
                 if tier == Tier::Thorough && x.chance(1, 10) {
                     x.range(17, 64) as i64
@@ -48,7 +50,7 @@ impl Scenario for AggSc {
         };
         p.set("n", n);
         p.set("msg_class", *x.pick(&[1i64, 2, 3, 4, 16, 17]));
-        p.set("dup_msgs", x.below(3) as i64); // 0 distinct, 1 one repeated pair of messages, 2 all equal
+        p.set("dup_msgs", *x.pick(&[0i64, 0, 1, 1, 2, 3, 4, 5, 6])); // 0 distinct, 1 one repeated pair, 2 all equal, 3..6 two distinct but related messages
         p.set("dedup", x.below(2) as i64);
         p.steps.push(Step::new(class, &[index as i64]));
         if class.ends_with("protocol") {
@@ -91,7 +93,9 @@ fn signers(rec: &mut Rec, lib: &dyn Lib, g: Grp, plan: &Plan, same_msg: bool) ->
     for i in 0..n {
         // edge keys 1, 2, r-2, r-1 take part; where all signers share one message the pairs (1, r-1) and (2, r-2)
         // are not both present (their keys and signatures would sum to the identity, which is rightly refused)
-        let class = if same_msg || dup == 2 { if i < 2 { i as u64 } else { 4 } } else if i < 4 { i as u64 } else { 4 };
+        // … except that with three or more same-message signers the pair (2, r-2) IS present at indices 1 and 2: their
+        // contributions cancel, the rest does not, and the accumulation / aggregate is an ordinary valid one
+        let class = if same_msg || dup == 2 { if n >= 3 && (i == 1 || i == 2) { i as u64 } else if i == 0 { 0 } else { 4 } } else if i < 4 { i as u64 } else { 4 };
         let sk = key_of_class(rec, lib, g, class, plan.seed.wrapping_add(i as u64 * 7919));
         let pk = rec.call(lib, g, Op::PublicKey, &[&sk]).first()?.to_vec();
         let mut msg = base.clone();
@@ -99,6 +103,23 @@ fn signers(rec: &mut Rec, lib: &dyn Lib, g: Grp, plan: &Plan, same_msg: bool) ->
             msg.extend_from_slice(&(i as u32).to_be_bytes());
         }
         v.push((sk, pk, msg));
+    }
+    if !same_msg && dup >= 3 && n >= 2 {
+        // two DISTINCT messages in a structural relation a set-membership shortcut might confuse:
+        // digest of the other, 32-byte prefix of the other, the other plus a zero byte
+        let a = x.below(n as u64) as usize;
+        let b = (a + 1 + x.below((n - 1) as u64) as usize) % n;
+        let mut long = v[a].2.clone();
+        while long.len() <= 40 {
+            long.extend_from_slice(b"-padding-to-make-the-message-longer-than-a-digest");
+        }
+        v[a].2 = long.clone();
+        v[b].2 = match dup {
+            3 => <sha2::Sha256 as sha2::Digest>::digest(&long).to_vec(),
+            4 => long[..32].to_vec(),
+            5 => { let mut m = long.clone(); m.push(0); m }
+            _ => <sha2::Sha512 as sha2::Digest>::digest(&long).to_vec(),
+        };
     }
     if !same_msg && dup == 1 && n >= 3 {
         // one repeated message between two signers at drawn positions (adjacent or not)
